@@ -1,3 +1,4 @@
+import TinysetModel.Proofs.ProgramTotal
 import TinysetModel.Proofs.ProgramRefine
 import TinysetModel.Proofs.Fns
 import TinysetModel.Proofs.Plain
@@ -235,6 +236,18 @@ theorem every_program_u32 {D : Type} (g : Rng D) (fuel n : Nat) (ops : List POp)
     runEv [] (evs ++ dropAll cfg32 s') = some [] :=
   program_correct_and_balanced cfg32_ok false g fuel n ops hr h
 
+
+/-- **SetU32: every program returns, and is right.**  Any number of new sets, any hint-free program (insert / remove /
+extend / collect / clone / with_capacity_of / drop / `&a | &b` / `&a - &b` / `a | &b` / `a - &b`) with `u32` arguments that
+feeds in fewer than 2^27 items in total, every generator outcome: every operation returns normally (no
+`unreachable!`, no "no room", no exhausted scan, recursion depth ≤ 2), every set ends well formed with exactly the
+members of the same program over ideal sets, and the allocator calls are legal and leave nothing live -/
+theorem every_program_returns_u32 {D : Type} (g : Rng D) (fuel n : Nat) (ops : List POp)
+    (hops : ∀ op ∈ ops, op.hintFree ∧ op.InRange 32) (hN : 2 * pitems ops < 2 ^ 28) (d : D) :
+    ∃ s' evs d', prun cfg32 false g (fuel + 2) (List.replicate n .empty) ops d = .ok ((s', evs), d') ∧
+      (∀ i, i < n → WF cfg32 (s'.get i) ∧ ∀ x, x ∈ elems cfg32 (s'.get i) ↔ specRunP n (fun _ => none') ops i x) ∧
+      runEv [] (evs ++ dropAll cfg32 s') = some [] :=
+  program_total_correct (histTotal_u32 g fuel) false n ops hops hN d
 
 end C02
 
